@@ -3819,9 +3819,16 @@ impl<Front: SocketHandler> ConnectionH2<Front> {
                     MuxResult::CloseSession
                 }
             }
-            (H2State::Error, _)
-            | (H2State::ClientSettings, Position::Server)
-            | (H2State::ServerSettings, Position::Client(..)) => {
+            (H2State::ServerSettings, Position::Client(..)) => {
+                // A stream linked to this backend connection while we still
+                // wait for the backend's SETTINGS arms WRITABLE
+                // (`start_stream`). Nothing can be sent before they arrive:
+                // `handle_settings_frame` re-arms WRITABLE when they do, and
+                // `write_streams` then sends the streams queued meanwhile.
+                self.readiness.interest.remove(Ready::WRITABLE);
+                MuxResult::Continue
+            }
+            (H2State::Error, _) | (H2State::ClientSettings, Position::Server) => {
                 error!(
                     "{} Unexpected combination: (Writable, {:?}, {:?})",
                     log_context!(self),
